@@ -14,6 +14,10 @@ type gstate struct {
 	stubEpoch bool // a stub is configured in the current epoch of the owner's mocker
 	nClauses  int
 	how       int // lookup path used for this target in this history (-1 not fixed yet)
+	// kept-handle bookkeeping: the caller keeps the mocker returned by a fresh-lookup apply
+	handle     bool // such a handle exists and is still the builder's cache entry for the target
+	handleDead bool // it has been cancelled and no fresh lookup has replaced it yet
+	handleMode bool // the live patch was installed through the cancelled handle: only the handle may touch the target
 }
 
 type gmodel struct {
@@ -59,15 +63,34 @@ func (m *gmodel) step(op world.Op) bool {
 			return false // clause arguments would have to include a receiver value
 		}
 	}
+	if gg := m.g(op.T); gg.handleMode {
+		// only the kept handle (or a whole-builder operation) may touch the target now
+		switch op.K {
+		case "ret", "when", "bad":
+			return false
+		case "apply", "cancel":
+			if op.F&2 == 0 {
+				return false
+			}
+		}
+	}
 	switch op.K {
 	case "apply":
 		if !m.usable(op.T, op.B) {
 			return false
 		}
-		if op.F == 1 && t.Generic {
+		if op.F&1 == 1 && t.Generic {
 			return false // S12: the origin placeholder of a generic method lacks the hidden dictionary argument
 		}
 		g := m.g(op.T)
+		if op.F&2 != 0 {
+			if !g.handle || !g.handleDead || g.touched != op.B {
+				return false
+			}
+			g.handleMode, g.handleDead = true, false
+		} else {
+			g.handle, g.handleDead, g.handleMode = true, false, false
+		}
 		g.kind, g.owner, g.touched, g.stubEpoch, g.nClauses = kCb, op.B, op.B, false, 0
 	case "ret":
 		g := m.g(op.T)
@@ -75,6 +98,7 @@ func (m *gmodel) step(op world.Op) bool {
 			return false
 		}
 		g.kind, g.owner, g.touched, g.stubEpoch, g.nClauses = kStub, op.B, op.B, true, 0
+		g.handle, g.handleDead = false, false
 	case "when":
 		g := m.g(op.T)
 		if !m.usable(op.T, op.B) || !t.Simple || g.nClauses >= 2 || t.Typ.NumOut() == 0 {
@@ -84,11 +108,25 @@ func (m *gmodel) step(op world.Op) bool {
 			g.nClauses = 0
 		}
 		g.kind, g.owner, g.touched, g.stubEpoch = kStub, op.B, op.B, true
+		if g.handleDead {
+			g.handle, g.handleDead = false, false // a fresh lookup replaced the cancelled cache entry
+		}
 		g.nClauses++
 	case "cancel":
 		g := m.g(op.T)
 		if g.owner == -2 || !m.usable(op.T, op.B) {
 			return false
+		}
+		if op.F&2 != 0 {
+			if !g.handle || g.owner != op.B || g.kind != kCb {
+				return false
+			}
+			g.handleMode = false
+			g.handleDead = true
+		} else if g.owner == op.B && g.kind == kCb && g.handle {
+			g.handleDead = true // the cached mocker (== the handle) is cancelled
+		} else {
+			g.handle, g.handleDead = false, false
 		}
 		if g.owner == op.B {
 			g.kind, g.owner, g.stubEpoch, g.nClauses = kOrig, -1, false, 0
@@ -96,6 +134,9 @@ func (m *gmodel) step(op world.Op) bool {
 		g.touched = op.B
 	case "reset":
 		for _, g := range m.gs {
+			if g.touched == op.B || g.owner == op.B {
+				g.handle, g.handleDead, g.handleMode = false, false, false
+			}
 			if g.owner == op.B {
 				g.kind, g.owner, g.stubEpoch, g.nClauses = kOrig, -1, false, 0
 			}
@@ -105,6 +146,9 @@ func (m *gmodel) step(op world.Op) bool {
 		}
 	case "dropref":
 		for _, g := range m.gs {
+			if g.touched == op.B || g.owner == op.B {
+				g.handle, g.handleDead, g.handleMode = false, false, false
+			}
 			if g.owner == op.B {
 				g.owner = -2
 			}
@@ -116,6 +160,9 @@ func (m *gmodel) step(op world.Op) bool {
 		g := m.g(op.T)
 		if g.owner == -2 || !m.usable(op.T, op.B) {
 			return false
+		}
+		if g.handleDead {
+			g.handle, g.handleDead = false, false
 		}
 		g.touched = op.B
 	case "call", "checkall", "gc", "grow", "log":
@@ -207,8 +254,8 @@ func (W) Gen(prop string, seed uint64, tier string) *world.Plan {
 	var ops []world.Op
 	// weights per property: apply, ret, when, cancel, reset, call, checkall, gc, grow, dropref, bad, log
 	wts := map[string][]int{
-		"C01": {14, 6, 4, 2, 2, 40, 6, 8, 6, 4, 0, 0},
-		"C02": {18, 8, 6, 10, 8, 14, 8, 4, 2, 3, 0, 0},
+		"C01": {14, 6, 4, 4, 2, 40, 6, 8, 6, 4, 0, 3},
+		"C02": {18, 8, 6, 12, 8, 14, 8, 4, 2, 3, 0, 0},
 		"C06": {16, 8, 6, 6, 4, 30, 10, 4, 2, 2, 0, 0},
 		"C12": {16, 14, 12, 8, 6, 14, 6, 2, 0, 0, 0, 0},
 		"C13": {10, 6, 4, 4, 4, 8, 4, 2, 0, 0, 30, 0},
@@ -243,12 +290,18 @@ func (W) Gen(prop string, seed uint64, tier string) *world.Plan {
 				origin = 1
 			}
 			op = world.Op{K: "apply", B: pickB(t), T: t, F: origin, N: howOf[t], V: r.U64(), W: r.U64()}
+			if gg := m.g(t); gg.handle && gg.handleDead && r.Chance(600) {
+				op.F |= 2 // re-apply through the kept (cancelled) handle
+			}
 		case 1:
 			op = world.Op{K: "ret", B: pickB(t), T: t, N: howOf[t], V: r.U64(), W: r.U64()}
 		case 2:
 			op = world.Op{K: "when", B: pickB(t), T: t, N: howOf[t], V: r.U64(), W: r.U64()}
 		case 3:
 			op = world.Op{K: "cancel", B: pickB(t), T: t, N: howOf[t], W: r.U64()}
+			if gg := m.g(t); gg.handle && gg.kind == kCb && r.Chance(500) {
+				op.F = 2 // cancel through the kept handle
+			}
 		case 4:
 			op = world.Op{K: "reset", B: r.Intn(nB)}
 			if r.Chance(200) && m.step(op) {
@@ -272,7 +325,7 @@ func (W) Gen(prop string, seed uint64, tier string) *world.Plan {
 		case 9:
 			op = world.Op{K: "dropref", B: r.Intn(nB)}
 		case 10:
-			op = world.Op{K: "bad", B: pickB(t), T: t, N: r.Intn(11), V: r.U64(), W: r.U64()}
+			op = world.Op{K: "bad", B: pickB(t), T: t, N: r.Intn(12), V: r.U64(), W: r.U64()}
 		case 11:
 			op = world.Op{K: "log", N: r.Intn(3)}
 		}
